@@ -243,6 +243,12 @@ def rtd (_c impl : List String) : Option Verdict :=
   pure { model := "0", oracle := impl == ["0"], nontrivial := true,
          note := if impl == ["0"] then "" else "the daemon did not end cleanly on SIGTERM (exit status, or it had to be killed)" }
 
+/-- `cgx | firstFailed secondOK`: a scrape with one unreadable and one slow interface fails as a whole
+    and leaves nothing running; the next scrape is complete -/
+def cgx (_c impl : List String) : Option Verdict :=
+  pure { model := "1 1", oracle := impl == ["1", "1"], nontrivial := true,
+         note := if impl == ["1", "1"] then "" else "a scrape with an unreadable interface did not fail as a whole, or the scrape after it was not complete" }
+
 /-- `cgs goroutines gathers | bad`: overlapping Prometheus gathers must all be complete -/
 def cgs (_c impl : List String) : Option Verdict :=
   pure { model := "0", oracle := impl == ["0"], nontrivial := true,
